@@ -124,6 +124,17 @@ CHECKS = {
              'are compared.',
         note='Only the discrete core: distributions of interaction type and inelasticity, cross-section values, monotonicity and '
              'interaction lengths are numerical and NOT decided by this check. The secondary sampler is scripted via subclass.'),
+    'C13': dict(
+        spec='Generators.tla + ExitPoints.tla', design='4.8',
+        text='Generators.tla models throw counting of the random generators (one count per throw, rejected throws included, '
+             'shadow on/off, survival weight of the returned particle), ListGenerator replay (cycle / stop, assignable count) and '
+             'the particle-type threshold table; ExitPoints.tla computes entry and exit points of 5076 lattice vertex/direction '
+             'pairs through a box and a cylinder in exact rational arithmetic and checks they lie on the boundary with the '
+             'vertex strictly between. Every edge / case is executed on CylindricalGenerator, RectangularGenerator and '
+             'ListGenerator (survival scripted through the earth model, random numbers scripted for the type table).',
+        note='Only the state-machine and lattice-geometry core. NOT decided: uniformity of vertices, isotropy of directions, '
+             'flavour / nu-nubar frequencies, energies, and the numerical weight formulas -- a change there is invisible to '
+             'this check.'),
 }
 
 NOT_APPLICABLE = {
